@@ -231,7 +231,7 @@ func doReplay(prop, path string) int {
 		return 3
 	}
 	switch toks[0] {
-	case "enc", "penc":
+	case "enc", "penc", "encns":
 		pre, err1 := parseHex(toks[1])
 		v, _, err2 := parseVal(toks[2:])
 		if err1 != nil || err2 != nil {
@@ -239,6 +239,9 @@ func doReplay(prop, path string) int {
 			return 3
 		}
 		r := goEnc(v, pre, BufMode{})
+		if toks[0] == "encns" {
+			r = goEncNoSvc(v, pre)
+		}
 		if toks[0] == "penc" {
 			if r.Class == "ok" {
 				fmt.Println("ok | " + hexOf(r.Appended))
@@ -275,9 +278,97 @@ func doReplay(prop, path string) int {
 			}
 		}
 		fmt.Println(first.Line())
+	case "rop", "wop":
+		op, rest, ok := parseOpTokens(toks[1:])
+		if !ok || len(rest) == 0 {
+			fmt.Println("not-replayable: malformed case")
+			return 3
+		}
+		kind := ""
+		if op.K == "scalar" || op.K == "nums" {
+			kind = fmt.Sprintf("u%d", op.W*8)
+		}
+		if toks[0] == "rop" {
+			data, err := parseHex(rest[0])
+			if err != nil {
+				fmt.Println("not-replayable: malformed case")
+				return 3
+			}
+			class, consumed, v, rc, _ := goRop(op, kind, false, data, BufMode{})
+			if class == "ok" {
+				p := ""
+				if rc {
+					p = "REST-CHANGED "
+				}
+				fmt.Printf("ok | %s%d | %s\n", p, consumed, v.String())
+			} else {
+				fmt.Println(class)
+			}
+		} else {
+			v, _, err := parseVal(rest)
+			if err != nil {
+				fmt.Println("not-replayable: malformed case")
+				return 3
+			}
+			class, app, pc, _ := goWop(op, kind, false, v, nil, BufMode{})
+			if class == "ok" {
+				p := ""
+				if pc {
+					p = "PRE-CHANGED "
+				}
+				fmt.Println("ok | " + p + hexOf(app) + " | " + v.String())
+			} else {
+				fmt.Println(class)
+			}
+		}
 	default:
 		fmt.Println("not-replayable: re-run the check (" + toks[0] + " cases are replayed by the whole suite)")
 		return 3
 	}
 	return 0
+}
+
+// inverse of opTokens for the primitive ops
+func parseOpTokens(toks []string) (op Op, rest []string, ok bool) {
+	at := func(i int) int {
+		if i >= len(toks) {
+			return -1
+		}
+		n, err := strconv.Atoi(toks[i])
+		if err != nil {
+			return -1
+		}
+		return n
+	}
+	str := func(i int) string {
+		if i >= len(toks) {
+			return ""
+		}
+		return toks[i]
+	}
+	if len(toks) == 0 {
+		return
+	}
+	op.K = toks[0]
+	n := 0
+	switch op.K {
+	case "scalar":
+		op.W, op.E, n = at(1), str(2), 3
+	case "fixed":
+		op.N, op.Pad, op.Left, n = at(1), at(2), str(3) == "1", 4
+	case "vstr":
+		op.PW, op.E, n = at(1), str(2), 3
+	case "nums":
+		op.CW, op.W, op.E, n = at(1), at(2), str(3), 4
+	case "fixeds":
+		op.CW, op.N, op.Pad, op.Left, op.E, n = at(1), at(2), at(3), str(4) == "1", str(5), 6
+	case "vstrs":
+		op.CW, op.PW, op.E, n = at(1), at(2), str(3), 4
+	default:
+		return
+	}
+	if len(toks) < n || op.W < 0 || op.N < 0 || op.CW < 0 || op.PW < 0 || op.Pad < 0 {
+		return
+	}
+	return op, toks[n:], true
 }
